@@ -1,6 +1,7 @@
 //! Conformance harness: replays TLC-generated behaviours into the real library and records
 //! ndjson traces that TLC validates against the specifications.
 mod act;
+mod analysis;
 mod body;
 mod c13;
 mod ffi;
@@ -36,6 +37,7 @@ fn main() {
         "pipe" => util::run_cases(inp, outp, pipe::run_case),
         "url" => util::run_cases(inp, outp, url::run),
         "marker" => util::run_cases(inp, outp, marker::run),
+        "analysis" => util::run_cases(inp, outp, analysis::run),
         "act" => util::run_cases(inp, outp, act::run),
         other => {
             eprintln!("harness: unknown driver {}", other);
